@@ -110,6 +110,7 @@ def run_shared(chk, tier, own):
             if len(seen) < 4:
                 raise core.MachineryFailure("Gen_IndxLong produced %d cases" % len(seen))
             chk.extra["spec_generated_files_loaded"] = tid
+        if own in ("C11", "C12"):
             for cl, common, counts in indx.gen_size_cases(tier):
                 tid += 1
                 events.append(indx.size_event(IndxIO, tid, cl, common, counts, str(wd)))
